@@ -57,7 +57,7 @@ class Prop:
             "evaluation.  non-trivial = at least 3 value-returning requests with at least one non-zero, non-sentinel "
             "result that needed >= 2 terms; distinct = distinct sha256 of the event log")
     probes = ["k2", "k3", "k4", "herm_adjpair", "herm_sandwich", "herm_nonadjoint", "domain_float", "domain_tracer",
-              "result_one", "result_zero", "result_value", "multi_term_result", "default_operator", "discipline_checked", "discipline_checked_3plus", "highest_order_checked", "highest_order_truth_checked",
+              "result_one", "result_zero", "result_value", "multi_term_result", "default_operator", "factor_element_popped", "product_element_popped", "discipline_checked", "discipline_checked_3plus", "highest_order_checked", "highest_order_truth_checked",
               "op_array", "op_view", "repeat_cached", "op_mul", "op_rmul", "known0_pattern", "view_factor", "twin_product", "same_object_factors", "late_eval_factor", "tiny_scale", "dynamic_discipline_checked", "factor_chain_dep", "family_R", "recurrent_W1", "recurrent_W2", "recurrent_W3", "recurrent_compared", "known_finding_signature_hits"]
     components_real = ["pymablock.series.cauchy_dot_product, product_by_order, BlockSeries"]
     components_stub = ["factor series eval callbacks (simulator-owned tables, call log)", "element multiplication wrapper (logging)",
@@ -376,6 +376,13 @@ class Prop:
                 views.append(len(ops) - 1)
             if r.random() < 0.12 and ops[-1][0] in ("get", "sl"):
                 ops.append(list(ops[-1]))
+            if r.random() < 0.06:
+                # the public pop(): the caller evicts a cached element of a factor or of the product
+                if r.random() < 0.5:
+                    k = r.randrange(K)
+                    ops.append(["popf", k, r.randrange(dims[k]), r.randrange(dims[k + 1]), list(r.choice(orders))])
+                else:
+                    ops.append(["popp", r.randrange(dims[0]), r.randrange(dims[-1]), list(r.choice(orders))])
         case["ops"] = ops
         if domain == "tracer" and herm == "none" and r.random() < 0.3:
             pick = lambda: [r.randrange(dims[0]), r.randrange(dims[-1]), list(r.choice(orders))]  # noqa: E731
@@ -702,6 +709,30 @@ class Prop:
                 if i >= dims[0] or j >= dims[-1]:
                     continue
                 events.append(("in", opi, (i, j, *n) in P))
+                continue
+            if kind == "popf":
+                _, k_, i, j, n = op
+                if k_ >= K or vf or case.get("same_object") or any(f.get("chain_dep") for f in case["factors"]):
+                    continue
+                idx_ = (i, j, *n)
+                if i >= dims[k_] or j >= dims[k_ + 1]:
+                    continue
+                marker = object()
+                if roots[k_].pop(idx_, marker) is not marker:
+                    bump("factor_element_popped")
+                    while (k_, idx_) in log:
+                        log.remove((k_, idx_))  # it may be evaluated once more
+                events.append(("popf", opi))
+                continue
+            if kind == "popp":
+                _, i, j, n = op
+                if i >= dims[0] or j >= dims[-1]:
+                    continue
+                marker = object()
+                if P.pop((i, j, *n), marker) is not marker:
+                    bump("product_element_popped")
+                    requested.discard((i, j, *n))
+                events.append(("popp", opi))
                 continue
             if kind == "view":
                 _, i, j, label = op
